@@ -35,7 +35,9 @@ def declared(case):
         if t["kind"] in CONTAINER:
             doid, nxt = nxt, nxt + 1
         d = tdef(t["kind"], t["content"], t["scalar"] if t["kind"] in ("KTuple", "KTuple2") else 0, doid,
-                 1 if t["static"] else 0, t["static"], CMP[t.get("cmp", "equality")])
+                 1 if t["static"] else 0, t["static"],
+                 2 if (t.get("dyn_enum") or t.get("dyn_range")) else CMP[t.get("cmp", "equality")])
+        # (a property-like trait ignores the comparison mode)
         base[t["name"]] = d
         rows0.append([t["name"], d])
     ITEMS = ("KTraitList", "KTraitDict", "KTraitSet", "KMethod")
@@ -62,10 +64,13 @@ def declared(case):
     rows0 += special
     rows0.append([-1, ta])
     over = {o["name"]: o for o in case["sub"]}
+    dyn_range = set(t["name"] for t in case["traits"] if t.get("dyn_range"))
     rows1 = []
     for n, d in [r for r in rows0 if 0 <= r[0] < 3000]:
         o = over.get(n)
-        if o is None:
+        if n in dyn_range:       # Sub has float bounds: default c + 0.5, shown in tenths
+            rows1.append([n, tdef("KConst", [10 * d["content"][0] + 5], 0, 0, d["nnotif"], d["static"], 2)])
+        elif o is None:
             rows1.append([n, d])
         elif o["how"] == "const":
             # (a default overridden by plain assignment in the subclass body comes back with the default comparison mode)
@@ -208,6 +213,12 @@ def gen_case(rnd, ctx, maxlen):
             traits[-1]["cmp"] = "identity"       # (Array's own default comparison mode)
         ctx.count("kind:" + k)
         ctx.count("comparison-mode:" + traits[-1]["cmp"])
+        if k == "KConst" and rnd.random() < 0.25:
+            traits[-1]["dyn_range"] = True       # Range(low='<name>', high='<name>', value='<name>'): property-like
+            ctx.count("default:dynamic-range")
+        elif k in ("KConst", "KMethodInt") and rnd.random() < 0.4:
+            traits[-1]["dyn_enum"] = True        # Enum(values='<name>'): a property-like trait
+            ctx.count("default:dynamic-enum" + ("-with-default-method" if k == "KMethodInt" else ""))
         if k in ("KListCopy", "KDictCopy") and rnd.random() < 0.35:
             traits[-1]["subclass"] = True        # the declared default is an instance of a list / dict subclass
             ctx.count("default:container-subclass-instance")
@@ -217,6 +228,8 @@ def gen_case(rnd, ctx, maxlen):
     sub = []
     for t in traits:
         r = rnd.random()
+        if t.get("dyn_enum") or t.get("dyn_range"):
+            continue
         if t["kind"] == "KConst" and r < 0.4:
             sub.append(dict(name=t["name"], how="const", content=gen_content(rnd, "KConst")))
         elif t["kind"] == "KConst" and r < 0.7:
@@ -260,7 +273,9 @@ def gen_case(rnd, ctx, maxlen):
         return traits[n]["content"]
 
     def assignable(n):
-        return n >= len(traits) or traits[n]["kind"] != "KUuid"      # a UUID trait is read-only
+        # a UUID trait is read-only; a dynamic enumeration is set through the property machinery (not modelled)
+        return n >= len(traits) or (traits[n]["kind"] != "KUuid" and not traits[n].get("dyn_enum")
+                                     and not traits[n].get("dyn_range"))
 
     mat = [set() for _ in ops]              # attributes certainly in __dict__ (read, mutated or assigned before)
     dirty = set()                           # (instance, name) of two-list tuples whose second list was mutated
@@ -322,7 +337,7 @@ def gen_case(rnd, ctx, maxlen):
                 op = ["Introspect", i, rnd.choice([100000, 200000, 300000]) + 100 * rnd.choice(defined) + rnd.randint(1, 9)]
                 ctx.count("trait-copy-metadata")
         elif r < 0.95:
-            if rnd.random() < 0.5:
+            if rnd.random() < 0.5 or (n < len(traits) and (traits[n].get("dyn_enum") or traits[n].get("dyn_range"))):
                 n = 50 + rnd.randint(0, 1)
             k = rnd.choice(["KConst", "KTraitList"])
             if n < len(traits) and traits[n]["kind"] in ("KTraitDict", "KTraitSet"):
@@ -518,8 +533,31 @@ def anytrait_case():
     return c
 
 
+def dynamic_case():
+    """Dynamic enumerations Enum(values='<name>') with and without a _name_default method, with static, on_trait_change,
+    observe and object-level listeners: computed once, stored, silent, per instance."""
+    traits = [dict(name=0, kind="KConst", content=[3], scalar=0, static=True, dyn_enum=True),
+              dict(name=1, kind="KMethodInt", content=[5], scalar=0, static=False, dyn_enum=True),
+              dict(name=2, kind="KConst", content=[7], scalar=0, static=False, dyn_enum=True, cmp="none"),
+              dict(name=3, kind="KMethodInt", content=[2], scalar=0, static=True, dyn_enum=True),
+              dict(name=4, kind="KTraitList", content=[1], scalar=0, static=False),
+              dict(name=5, kind="KConst", content=[3], scalar=0, static=True, dyn_range=True),
+              dict(name=6, kind="KConst", content=[4], scalar=0, static=False, dyn_range=True)]
+    ops = [["NewInst", 0], ["NewInst", 0], ["NewInst", 1], ["Register", 0, 0, 1, False], ["Register", 0, 1, 2, True],
+           ["Register", 0, 2, 3, True], ["Register", 1, -2, 4, False], ["Register", 2, 3, 5, False]]
+    for n in range(4):
+        ops += [["Read", 0, n], ["Read", 0, n], ["Read", 1, n], ["Read", 1, n], ["Mutate", 0, n, 100 + n], ["Read", 2, n],
+                ["Introspect", 0, 100000 + 100 * n + 3], ["Read", 0, n]]
+    # dynamic ranges: the int-bounded instance first, then the float-bounded one (and the other way round)
+    ops += [["Register", 2, 5, 6, True], ["Read", 0, 5], ["Read", 2, 5], ["Read", 2, 5], ["Read", 1, 5],
+            ["Read", 2, 6], ["Read", 0, 6], ["Read", 0, 6], ["Read", 1, 6]]
+    ops += [["NewInst", 0], ["NewInst", 1]] + [["Read", 3, n] for n in range(7)] + [["Read", 4, n] for n in range(7)] + \
+        [["Read", 3, n] for n in range(7)]
+    return dict(traits=traits, sub=[], ops=ops)
+
+
 def corpus():
-    return [anytrait_case(), delete_case(), definitions_case(), wildcard_case(), all_kinds_case(False), all_kinds_case(True), sharing_case(), object_level_case(),
+    return [dynamic_case(), anytrait_case(), delete_case(), definitions_case(), wildcard_case(), all_kinds_case(False), all_kinds_case(True), sharing_case(), object_level_case(),
             comparison_mode_case("none"), comparison_mode_case("identity"), handover_case()]
 
 
@@ -544,7 +582,7 @@ def run(ctx):
         cases = [json.load(open(ctx.replay))["replay"]["case"]]
     else:
         cases = corpus() + [gen_case(rnd, ctx, maxlen) for _ in range(n)]
-    for c in cases[6:9] + cases[-1:]:   # evidence samples: two corpus cases, one random, the last random
+    for c in cases[7:10] + cases[-1:]:   # evidence samples: two corpus cases, one random, the last random
         ctx.sample(c)
     _evaluate = hist.evaluate
 
